@@ -21,14 +21,13 @@ import pyc_dump as D
 import syntax_common as S
 
 ID = "C19"
-NOT_CLAIMED = "in progress"
 LEVEL = "proof"
 TRANSLATORS = ["syntax", "pycschema"]
 MODEL_TARGETS = ["theories/Syntax.vo", "theories/FileIO.vo"]
-EXPLANATION = ("Theorems over all trees of the generic pycparser tree type: FindLoops = filter over the specified preorder "
-               "(refuted for classes NodeHandler does not list, proved for the rest), statistics = the counts of that traversal, "
-               "loc = line count of the comment-free text (refuted by a block comment spanning a line break between code, proved otherwise). "
-               "The model is tied to the code by generated method tables and by correspondence on generated programs / texts.")
+EXPLANATION = ("Theorems over all trees of the generic pycparser tree type and all texts: FindLoops = filter of the loop nodes over the "
+               "specified preorder (source order, any depth), statistics = the counts of that traversal, loc = number of physical lines "
+               "holding code outside comments. The model is tied to the code by generated method tables and by correspondence on "
+               "generated programs / texts; the real code is searched against independent oracles.")
 ASSUMPTIONS = ["pycparser parse trees are represented faithfully by tools/pyc_dump.py (round trip validated on every run)",
                "texts are ASCII; universal-newline decoding of open(..., 'r') is modelled by universal_nl",
                "'counted for' is what Coverage.loop_compat accepts (the property does not define it further)"]
